@@ -239,6 +239,17 @@ func (r *Result) AddDisagreement(d Disagreement) {
 	r.Distribution["disagreements_total"] = n + 1
 	if len(r.Disagreements) < 50 {
 		r.Disagreements = append(r.Disagreements, d)
+		return
+	}
+	// full: a disagreement with a concrete failing input (spec verdict "violates", or a crash)
+	// displaces one without
+	if d.SpecVerdict == "violates" || d.Kind == "crash" {
+		for i := range r.Disagreements {
+			if x := r.Disagreements[i]; x.SpecVerdict != "violates" && x.Kind != "crash" {
+				r.Disagreements[i] = d
+				return
+			}
+		}
 	}
 }
 
